@@ -2,7 +2,7 @@
    Model: Namespace/Reader.v (resolve, read = reading one definition without cache, readS = with the per-object
    cache / visitor / handler).  Proofs: Namespace/ReaderProofs.v, ReadPure.v, ReadCache.v. *)
 From Coq Require Import ZArith List Bool.
-From PV Require Import Namespace.Reader Namespace.ReaderProofs Namespace.ReadPure Namespace.ReadCache.
+From PV Require Import Namespace.Reader Namespace.ReaderProofs Namespace.ReadPure Namespace.ReadCache Namespace.LoopProofs Namespace.FilesProofs.
 Import ListNotations.
 Open Scope Z_scope.
 
@@ -71,6 +71,15 @@ Theorem C09_cache_order : forall txt L, case_unique L -> files_unique L -> foral
   read_seq txt L [] os = pure_seq txt L (map snd os).
 Proof. intros. apply read_seq_pure; try assumption. apply cinv_nil. Qed.
 Print Assumptions C09_cache_order.
+
+(* the loop of _read_definitions over a list of targets fails exactly when one of the targets cannot be read on its
+   own (missing / ambiguous / wrongly spelled / cyclic reference, invalid text), independent of the order of the
+   targets; strict_unique = case_unique and no duplicates *)
+Theorem C09_reported : forall txt L, strict_unique L -> files_unique L -> forall targets,
+  NoDup targets -> (forall d, In d targets -> In d L) ->
+  ((exists st, run_targets txt L st0 targets = Ok st) <-> forall d, In d targets -> exists t, read_top txt d L = Ok t).
+Proof. exact run_targets_ok_iff. Qed.
+Print Assumptions C09_reported.
 
 (* Without case_unique the statement of C09_standalone is false (open finding F7): ns.A.1.0 has a field X.1.0,
    ns.X.1.0 has a field ns.a.1.0, and ns.a.1.0 exists next to ns.A.1.0.  Reading A succeeds (A itself is not a
